@@ -79,7 +79,7 @@ type World struct {
 	FaultOps              []string // labels of the calls during which an injected fault fired
 	NeedReopen            bool     // a failed FlushRevert: contents unspecified until re-opened
 	OpenFailed            bool
-	NoRoots               bool // the file holds no root record and NewStore said so
+	NoRoots               bool               // the file holds no root record and NewStore said so
 	DstFault              func(dst *MemFile) // arms fault injection on a CopyTo destination
 	depthObs              []depthObs
 	Aux                   *World // second store of the same process (C10)
@@ -120,6 +120,25 @@ type RefCounter struct {
 	Counts             map[*gkvlite.Item]int
 	Neg                []string
 	Allocs, Adds, Decs int
+	// Dead holds items whose count has dropped to zero after having been
+	// positive: the application may recycle them (a slab allocator would), so
+	// any later use by gkvlite is a use after release.  To make such a use
+	// observable the key and value of a dead item are overwritten.
+	Dead     map[*gkvlite.Item]bool
+	Poisoned int
+}
+
+// die is called when an item's count reaches zero.
+func (rc *RefCounter) die(i *gkvlite.Item) {
+	rc.Dead[i] = true
+	rc.Poisoned++
+	for k := range i.Key {
+		i.Key[k] = 0xfe
+	}
+	if i.Val != nil {
+		i.Val = []byte("\xfe<released item>\xfe")
+	}
+	i.Priority = -12345
 }
 
 func (w *World) callbacks() gkvlite.StoreCallbacks {
@@ -128,8 +147,13 @@ func (w *World) callbacks() gkvlite.StoreCallbacks {
 	if w.Mon.RefCount {
 		m |= CBItemAlloc | CBAddRef | CBDecRef
 		if w.RC == nil {
-			w.RC = &RefCounter{Counts: map[*gkvlite.Item]int{}}
+			w.RC = &RefCounter{Counts: map[*gkvlite.Item]int{}, Dead: map[*gkvlite.Item]bool{}}
 		}
+	}
+	if all := CBItemAlloc | CBAddRef | CBDecRef; m&all == all && w.RC == nil {
+		// a complete reference-counting configuration: run the recycling pool
+		// (items whose count reaches zero are scrubbed)
+		w.RC = &RefCounter{Counts: map[*gkvlite.Item]int{}, Dead: map[*gkvlite.Item]bool{}}
 	}
 	rc := w.RC
 	if m&CBBeforeWrite != 0 {
@@ -151,6 +175,9 @@ func (w *World) callbacks() gkvlite.StoreCallbacks {
 	if m&CBAddRef != 0 {
 		cb.ItemAddRef = func(c *gkvlite.Collection, i *gkvlite.Item) {
 			if rc != nil {
+				if rc.Dead[i] && len(rc.Neg) < 4 {
+					rc.Neg = append(rc.Neg, fmt.Sprintf("a reference was taken on an item during %s after its count had dropped to zero (use after release)", w.curLabel))
+				}
 				rc.Counts[i]++
 				rc.Adds++
 			}
@@ -163,6 +190,9 @@ func (w *World) callbacks() gkvlite.StoreCallbacks {
 				rc.Decs++
 				if rc.Counts[i] < 0 && len(rc.Neg) < 4 {
 					rc.Neg = append(rc.Neg, fmt.Sprintf("count of item %q dropped to %d during %s", i.Key, rc.Counts[i], w.curLabel))
+				}
+				if rc.Counts[i] == 0 {
+					rc.die(i)
 				}
 			}
 		}
@@ -916,6 +946,12 @@ func (w *World) SnapRefused(i int) {
 		}
 		if _, err := c.Delete([]byte("a")); err == nil {
 			w.Fail("snapshot", "delete-accepted", "%s: Delete on a snapshot returned nil", label)
+		}
+		// Collection.Write persists dirty nodes without a root record; through a
+		// snapshot it would write to a file the snapshot does not own (the file
+		// monitor flags any write issued here as well)
+		if err := c.Write(); err == nil {
+			w.Fail("snapshot", "write-accepted", "%s: Collection.Write on a snapshot returned nil", label)
 		}
 		break
 	}
